@@ -320,8 +320,8 @@ func (g *Gen) KeywordCatalogue() []*Case {
 	var out []*Case
 	i := 0
 	for _, k := range KeywordFields {
-		for si := 0; si < 6; si++ {
-			slot := "kw-" + []string{"filter", "match", "vector-filter", "update-set", "insert", "match-nested"}[si]
+		for si := 0; si < 8; si++ {
+			slot := "kw-" + []string{"filter", "match", "vector-filter", "update-set", "insert", "match-nested", "after-search", "after-search-nested"}[si]
 			l := func() *Node { return g.LitClass("str", slot) }
 			db, coll := "db"+g.letters(5), "coll"+g.letters(5)
 			var cmd *Node
@@ -344,6 +344,25 @@ func (g *Gen) KeywordCatalogue() []*Case {
 				cmd = cmdTail(ObjN("insert", collN(coll), "documents", ArrN(ObjN(k, l(), "sub", ObjN(k, ArrN(l())))), "ordered", keep(BoolN(true))), db)
 			case 5:
 				cmd = cmdTail(ObjN("aggregate", collN(coll), "pipeline", ArrN(ObjN("$match", ObjN("doc", ObjN(k, l()))), ObjN("$addFields", ObjN(k, l()))), "cursor", keep(ObjN())), db)
+			case 6, 7:
+				// ordinary stages AFTER a leading search stage: their user fields are user fields, whatever
+				// they are called (a keyword holding a document whose member is a keyword again: text.path, range.gt …)
+				k2 := KeywordFields[(i*7+3)%len(KeywordFields)]
+				tail := []*Node{ObjN("$match", ObjN(k, l(), "w", ObjN(k, ObjN(k2, l())))), ObjN("$set", ObjN(k, l(), "v", ObjN(k2, ObjN(k, l()))))}
+				var lead *Node
+				if i%2 == 0 {
+					lead = ObjN("$search", ObjN("index", KeepS("s_kw"), "text", ObjN("query", g.searchQuery("kw-search"), "path", g.path())))
+				} else {
+					lead = ObjN("$vectorSearch", ObjN("index", KeepS("v_kw"), "path", g.path(), "queryVector", ArrN(sens(NumN(g.Number()), "num", "vector")), "numCandidates", KeepI(50), "limit", KeepI(5)))
+				}
+				stages := ArrN(append([]*Node{lead}, tail...)...)
+				if si == 7 {
+					stages = ArrN(ObjN("$match", ObjN("plain", l())), ObjN(g.pick("$unionWith", "$lookup"), ObjN("from", g.nsColl(), "pipeline", stages, "as", FreeS("joined"))))
+					if stages.Vals[1].Keys[0] == "$unionWith" {
+						stages.Vals[1].Vals[0] = ObjN("coll", g.nsColl(), "pipeline", ArrN(append([]*Node{lead}, tail...)...))
+					}
+				}
+				cmd = cmdTail(ObjN("aggregate", collN(coll), "pipeline", stages, "cursor", keep(ObjN())), db)
 			}
 			out = append(out, g.Case(CaseOpts{Verb: verb, Carrier: Carriers[i%3], Comp: Comps[(i/3)%3], DB: db, Coll: coll, Cmd: cmd}))
 			i++
